@@ -566,6 +566,19 @@ class Machine:
         for (cls, m) in self.dom.inline:
             if m == method and self.dom.receiver_is(call.func.value, frame, cls):
                 return cls, method, call.func.value
+        # a sibling method the front end was not told about (a helper extracted by a refactoring, say): it is read from
+        # the real class and inlined like the declared ones, unless the domain models that call abstractly
+        for cls, pycls in getattr(self.dom, "pyclasses", {}).items():
+            if (cls, method) in self.dom.methods or not self.dom.receiver_is(call.func.value, frame, cls):
+                continue
+            for k in pycls.__mro__:
+                f = k.__dict__.get(method)
+                if f is not None and k.__module__.startswith("Pyro5"):
+                    if isinstance(f, (staticmethod, classmethod)):
+                        f = f.__func__
+                    if inspect.isfunction(f):
+                        self.dom.inline[(cls, method)] = load_method(k, method)
+                        return cls, method, call.func.value
         return None
 
 
